@@ -150,6 +150,29 @@ def show(phi):
     if op == 'jump': return '(@{' + phi[1] + '}: ' + show(phi[2]) + ')'
     raise KeyError(op)
 
+def distinct_names(phi, pool=None):
+    """the same formula with a different user-given name for every quantifier occurrence (siblings no longer share names):
+    more distinct names than nesting depth -- only preprocessing brings them back to one name per depth"""
+    pool = pool or ['y', 'z', 'w', 'yy', 'zz', 'ww', 'y1', 'z1', 'w1', 'y2', 'z2', 'w2']
+    cnt = [0]
+    def go(f, m):
+        op = f[0]
+        if op == 'var': return ('var', m.get(f[1], f[1]))
+        if op in ('true', 'false', 'prop', 'wild'): return f
+        if op == 'jump': return ('jump', m.get(f[1], f[1]), go(f[2], m))
+        if op in QUANT:
+            nm = pool[cnt[0] % len(pool)] + ('' if cnt[0] < len(pool) else str(cnt[0])); cnt[0] += 1
+            return (op, nm, f[2], go(f[3], {**m, f[1]: nm}))
+        return (op,) + tuple(go(c, m) for c in f[1:])
+    return go(phi, {})
+
+def count_quant(phi):
+    op = phi[0]
+    if op in ('true', 'false', 'prop', 'var', 'wild'): return 0
+    if op in QUANT: return 1 + count_quant(phi[3])
+    if op == 'jump': return count_quant(phi[2])
+    return sum(count_quant(c) for c in phi[1:])
+
 def depth(phi):
     op = phi[0]
     if op in ('true', 'false', 'prop', 'var', 'wild'): return 0
